@@ -199,6 +199,11 @@ bool a64_known_invalid(uint32_t inst_id, const Operand_* o, const Operand_* form
       break;
     case I::kIdCmp: case I::kIdCmn: case I::kIdTst: case I::kIdNeg: case I::kIdNegs: case I::kIdMvn:
       if (n == 3 && is_imm(2) && pred(2) <= 3) { uint32_t b = same_gp(2); if (b && (imm(2) < 0 || imm(2) >= int64_t(b))) { *why = "shift amount not below the register size"; return true; } }
+      // cmp/cmn/neg/negs are aliases of subs/adds/sub: their shifted-register form has no ror (tst/mvn are logical and have it)
+      if (n == 3 && is_imm(2) && pred(2) == 3 && same_gp(2) && id != I::kIdTst && id != I::kIdMvn) { *why = "ror is not a shift of add/sub (cmp/cmn/neg are aliases)"; return true; }
+      break;
+    case I::kIdBfc:
+      if (n == 3 && is_imm(1) && is_imm(2)) { uint32_t b = gp_bits(0); if (b && (imm(1) < 0 || imm(1) >= int64_t(b) || imm(2) < 1 || imm(2) > int64_t(b) || imm(1) + imm(2) > int64_t(b))) { *why = "bit field outside the register"; return true; } }
       break;
     case I::kIdTbz: case I::kIdTbnz:
       if (n == 3 && is_imm(1)) { uint32_t b = gp_bits(0); if (b && (imm(1) < 0 || imm(1) >= int64_t(b))) { *why = "tested bit does not exist in the register"; return true; } }
